@@ -181,6 +181,8 @@ def main():
     # ---- bounded stand-ins (never counted in obligations / discharged)
     bounded_ev = []
     bounded_known = {f['bounded_signature']: f for f in findings if f.get('status') == 'open' and f['property'] == prop and f.get('bounded_signature')}
+    bounded_kf_groups = {}
+    bounded_unlisted = set()
     for br in bounded_results:
         d = breg.get(br['id'], {})
         if br['status'] == 'undecided':
@@ -188,10 +190,14 @@ def main():
         sigs = br.get('signatures') or {}
         for sig, cnt in sorted(sigs.items()):
             ex_ = [f for f in br.get('failures', []) if f.get('signature') == sig]
-            if sig in bounded_known:
-                known_lines.append('KNOWN-FINDING: property=%s %s %s (bounded check %s: %d failing inputs, e.g. %s)' % (
-                    prop, bounded_known[sig]['id'], bounded_known[sig].get('what', ''), br['id'], cnt, json.dumps((ex_[0]['graphql'] if ex_ else '')[:200])))
+            kf = bounded_known.get(sig) or next((f for f in findings if f.get('status') == 'open' and f['property'] == prop and f.get('bounded_signature_prefix') and sig.startswith(f['bounded_signature_prefix'])), None)
+            if kf:
+                g = bounded_kf_groups.setdefault((kf['id'], br['id']), dict(kf=kf, n=0, sigs=[], ex=None))
+                g['n'] += cnt
+                g['sigs'].append(sig)
+                g['ex'] = g['ex'] or (ex_[0]['graphql'] if ex_ else '')
                 continue
+            bounded_unlisted.add(br['id'])
             viol.append(dict(unit='bounded:' + br['id'], clause='%s.bounded.%s:%s' % (prop, br['id'], sig), text=d.get('oracle', ''), kind='bounded-check',
                              fn=', '.join(d.get('functions', [])), verus_output=['bounded check %s: %d failing inputs with signature: %s' % (br['id'], cnt, sig)] + [json.dumps(e, indent=1) for e in ex_[:2]],
                              replay=dict(found=True, input=(ex_[0] if ex_ else {}).get('graphql'), observed=(ex_[0] if ex_ else {}).get('got'), expected=(ex_[0] if ex_ else {}).get('why'),
@@ -201,6 +207,10 @@ def main():
                                bound=(d.get('bound') or {}).get(tier), status=br['status'], evaluations=br.get('evaluations'),
                                distinct_nontrivial=br.get('distinct_nontrivial'), per_family=br.get('per_family'),
                                rule=d.get('rule'), samples=br.get('samples'), failure_signatures=sigs, wall_s=br.get('wall_s'), note=br.get('note')))
+
+    for (kid, bid_), g in sorted(bounded_kf_groups.items()):
+        known_lines.append('KNOWN-FINDING: property=%s %s %s (bounded check %s: %d failing inputs in %d signature(s), e.g. %s)' % (
+            prop, kid, g['kf'].get('what', '')[:300], bid_, g['n'], len(g['sigs']), json.dumps((g['ex'] or '')[:160])))
 
     # ---- output
     wit_notes = []
@@ -292,7 +302,7 @@ def main():
     json.dump(ev, open(os.path.join(evdir, prop + '.json'), 'w'), indent=1)
     print('%s property=%s tier=%s units=%d obligations=%d discharged=%d%s wall=%.1fs' % (
         {0: 'OK', 1: 'FAIL', 2: 'UNDECIDED'}[rc], prop, tier, len(mine), obligations, discharged,
-        ''.join(' bounded:%s=%s(%s cases)' % (b['id'], b['status'], b.get('evaluations')) for b in bounded_results), wall))
+        ''.join(' bounded:%s=%s(%s cases)' % (b['id'], ('known-findings-only' if b['status'] == 'violation' and b['id'] not in bounded_unlisted else b['status']), b.get('evaluations')) for b in bounded_results), wall))
     sys.exit(rc)
 
 
